@@ -532,3 +532,46 @@ func optionsCarryNoState(c *Ctx, r *Report, rule string) {
 	}
 	r.ok(rule, "options-state/scan", "", "no map update or element store through a member of decodeOptions on the decode path")
 }
+
+// readerKindIndependent: the decoder uses its input only as an io.Reader. A type assertion on the
+// reader (to find a Len, a Seek, a ReadByte ...) makes what is returned depend on the kind of reader
+// the caller happened to pass, not on the bytes: the same truncated stream gives the complete
+// messages before the cut through one reader type and none through another.
+func readerKindIndependent(c *Ctx, r *Report, rule string) {
+	roots, _ := c.rootFuncs(decodeRoots)
+	n := 0
+	isReader := func(v ssa.Value) bool {
+		if v.Type().String() != "io.Reader" {
+			return false
+		}
+		switch x := v.(type) {
+		case *ssa.Parameter:
+			return true
+		case *ssa.UnOp:
+			if fa, ok := x.X.(*ssa.FieldAddr); ok && x.Op == token.MUL {
+				if o, f := ownerOf(fa); o != nil && o.Obj().Name() == "decoder" && f == "r" {
+					return true
+				}
+			}
+		}
+		return false
+	}
+	for _, fn := range c.reach(roots).module() {
+		if fnPkgPath(fn) != modPath || !inLib(fn) {
+			continue
+		}
+		for _, b := range fn.Blocks {
+			for _, ins := range b.Instrs {
+				ta, ok := ins.(*ssa.TypeAssert)
+				if !ok || !isReader(ta.X) {
+					continue
+				}
+				n++
+				r.fail(rule, fn.Name()+"/reader-kind", c.pos(ta.Pos()), fmt.Sprintf("%s asserts the input reader to %s: what is decoded (and what is returned beside an error) then depends on the kind of reader passed, not on the bytes it delivers", fn.Name(), ta.AssertedType))
+			}
+		}
+	}
+	if n == 0 {
+		r.ok(rule, "reader-kind/scan", "", "no type assertion on the input reader anywhere on the decode path")
+	}
+}
